@@ -1,6 +1,8 @@
 mod c01;
 mod c02;
 mod c09;
+mod c10;
+mod c10conn;
 mod c18;
 mod genpkt;
 mod libconv;
@@ -33,6 +35,7 @@ fn main() {
                 Some("C01") => c01::run(t),
                 Some("C02") => c02::run(t),
                 Some("C09") => c09::run(t),
+                Some("C10") => c10::run(t),
                 Some("C18") => c18::run(t),
                 other => {
                     eprintln!("unknown property {other:?}");
